@@ -67,7 +67,7 @@ def field_meta(cfg, st, orders_ord):
     raise ValueError(st)
 
 
-def build(cfg, kind, stat, forms, cond=False, wc=False):
+def build(cfg, kind, stat, forms, cond=False, wc=False, foreign=False):
     """kind: struct | tuple | enum | union.  stat / forms: per field (field k uses parameter k)."""
     metas, carrier, partners, probes = CONFIGS[cfg]
     n = len(stat)
@@ -76,7 +76,17 @@ def build(cfg, kind, stat, forms, cond=False, wc=False):
     gargs = '<%s>' % ', '.join(params)
     ftypes = [FORMS[forms[k]].format(P=params[k]) for k in range(n)]
     wherec = ''
-    if wc:
+    cargs = ''
+    if wc == 'inline':
+        # the same projection-typed fields with the bound written inline in the parameter list (impl generics and type generics print differently)
+        gdecl = '<%s>' % ', '.join("%s: 'static + Pr" % p for p in params)
+        ftypes = [FORMS[forms[k]].format(P=params[k] + '::Out') for k in range(n)]
+    elif wc == 'const':
+        # a const parameter after the type parameters (declared `const CN: usize`, named `CN` in the type's arguments)
+        gdecl = '<%s, const CN: usize>' % ', '.join("%s: 'static" % p for p in params)
+        gargs = '<%s, CN>' % ', '.join(params)
+        cargs = ', 2'
+    elif wc:
         # the bounds live in the type's where-clause and the fields use a projection that only exists under it
         gdecl = '<%s>' % ', '.join(params)
         wherec = ' where %s' % ', '.join("%s: 'static + Pr" % p for p in params)
@@ -90,6 +100,8 @@ def build(cfg, kind, stat, forms, cond=False, wc=False):
 
     def fl(k, named):
         a = '#[educe(%s)] ' % fmetas[k] if fmetas[k] else ''
+        if foreign:     # attributes of other tools before (and after) the field's educe attribute
+            a = '#[doc = "documented"] #[allow(unused)] ' + a + ('#[cfg_attr(any(), deprecated)] ' if k % 2 else '')
         return '%s%s%s' % (a, 'f%d: ' % k if named else '', ftypes[k])
     if cfg == 'Into':
         # the first field is chosen for u64
@@ -118,12 +130,12 @@ def build(cfg, kind, stat, forms, cond=False, wc=False):
         ftypes = [md(t) for t in ftypes]
     if cond and not partners:
         return None
-    gcond = '<%s>' % ', '.join("%s: 'static%s" % (p, ' + Mk' if k == 0 else '') for k, p in enumerate(params))
+    gcond = '<%s%s>' % (', '.join("%s: 'static%s" % (p, ' + Mk' if k == 0 else '') for k, p in enumerate(params)), ', const CN: usize' if wc == 'const' else '')
     for p in partners:
         src += PARTNER_IMPL[p].format(G=gcond if cond else gdecl, A=gargs + wherec)
     body = ''
     for inst in itertools.product(['Yes', 'No'], repeat=n):
-        targs = '<%s>' % ', '.join(inst)
+        targs = '<%s%s>' % (', '.join(inst), cargs)
         for (probed, req, which) in probes:
             terms = []
             for k in range(n):
@@ -152,7 +164,7 @@ def build(cfg, kind, stat, forms, cond=False, wc=False):
                         r = 'Clone'
                     if kind == 'union' and cfg == 'Clone':
                         r = 'Copy'
-                    ft = FORMS[forms[k]].format(P=('<%s as Pr>::Out' % inst[k]) if wc else inst[k])
+                    ft = FORMS[forms[k]].format(P=('<%s as Pr>::Out' % inst[k]) if wc in (True, 'inline') else inst[k])
                     if kind == 'union':
                         ft = 'std::mem::ManuallyDrop<%s>' % ft
                     terms.append('probe!(%s: %s)' % (ft, PATH[r]))
@@ -167,7 +179,7 @@ def build(cfg, kind, stat, forms, cond=False, wc=False):
             body += '    r.ck(probe!(Ty%s: %s) == probe!(Ty%s: %s), 4, &|| "companion and primary impl apply to different instantiations at %s".to_string());\n' % (
                 targs, PATH[probes[0][0]], targs, PATH[probes[1][0]], targs) if cfg not in ('Copy+Clone',) or not (kind == 'enum' and 'm' in stat) else ''
     src += 'pub fn check(r: &mut Rep) {\n%s}\n' % body
-    key = 'C11|%s|%s|%s|%s%s%s' % (cfg, kind, stat, ','.join(str(f) for f in forms), '|cond' if cond else '', '|wc' if wc else '')
+    key = 'C11|%s|%s|%s|%s%s%s%s' % (cfg, kind, stat, ','.join(str(f) for f in forms), '|cond' if cond else '', {False: '', True: '|wc', 'inline': '|inline', 'const': '|const'}[wc], '|foreign' if foreign else '')
     depth = sum(1 for s in stat if s != 'd') + (cfg.count('+'))
     return Case(key, src, {'config': cfg, 'kind': kind, 'status': stat, 'field_types': [FORMS[f] for f in forms]}, expect='accept', run=True, depth=depth)
 
@@ -213,6 +225,19 @@ def generate(tier):
                 c = build(cfg, kind, stat, forms, False, wc=True)
                 if c is not None:
                     cases.append(c)
+    # parameter lists whose impl-generics and type-generics differ (inline trait bounds, const parameters), and other tools' attributes around the field attributes
+    for cfg in CONFIGS:
+        kinds = ['struct', 'tuple', 'enum'] if cfg != 'Debug/flip' else ['enum']
+        for kind in kinds:
+            st = statuses(cfg)
+            plans = [(s, (f0,)) for f0 in (0, 1, 3) for s in st] + [(''.join(s), (0, 3)) for s in itertools.product(st, repeat=2)]
+            for stat, forms in plans:
+                for wcm, fo, cond in (('inline', False, False), ('const', False, False), ('const', False, True), (False, True, False), (True, True, False)):
+                    if wcm == 'const' and cfg == 'Default':
+                        pass
+                    c = build(cfg, kind, stat, forms, cond, wc=wcm, foreign=fo)
+                    if c is not None:
+                        cases.append(c)
     # the same probes with decoy `core` / `std` modules in scope of the derive (a bound written with a relative path would name a decoy trait that every type implements)
     from .common import decoy_layer
     base = [c for c in cases if c is not None]
